@@ -559,6 +559,155 @@ FROM_TRACE = Contract(qual="hvsrpy.timeseries.TimeSeries.from_trace", params=["c
                       notes="exactly the trace's samples, in order, in storage of the time series' own, with the trace's sampling interval")
 TASKS.append(FunctionTask(FROM_TRACE, label="hvsrpy.timeseries.TimeSeries.from_trace", clauses=["obspy formats: a component holds exactly the samples of its trace with the trace's time step"]))
 
+# ---------------------------------------------------------------------------------------------------------------------
+# _read_peer: three files, one component each.  Per file (outer loop unrolled, the sample loop by invariant): the direction key, NPTS and DT of the header, and
+# the samples in file order; the count must match NPTS.  Then the components are arranged by their keys - decided here case by case for concrete keys, the
+# expected arrangement written down independently below (PEER convention: UP / VER is the vertical, the horizontal whose azimuth is closest to north modulo 360
+# is the north component and its azimuth the orientation; or letter codes ending in Z / N / E).  All three are cut to the shortest component.
+PFIELD = z3.Function("peer_header_text", I, I, I)       # (file, field: 1 NPTS, 2 DT) -> identity of the matched text
+PROW = z3.Function("peer_sample_text", I, I, I)          # (file, k) -> identity of the k-th sample's text
+PNROWS = z3.Function("peer_n_samples_found", I, I)
+
+
+class _PeerText(StrV):
+    def __init__(self, fid):
+        super().__init__("<text of the file>")
+        self.fid = fid
+
+
+class _FloatStr(OStr):
+    def as_float(self):
+        return PARSE_FLOAT(self.sym_id)
+
+
+def _m_open_peer(ex, st, args, kw, node):
+    f = _fid(args[0])
+    return ModV("file", {"read": FuncV(lambda e2, s2, a2, k2, n2, _f=f: _PeerText(_f), "read")})
+
+
+def _peer_pattern(field, keys=None):
+    def search(ex, st, args, kw, node):
+        t = args[0]
+        if not isinstance(t, _PeerText):
+            raise Undecided("a PEER pattern is applied to something other than the text of a file")
+        if keys is not None:
+            val = StrV(keys[z3.simplify(t.fid).as_long() - 11])       # the direction key of this file: concrete in each configuration
+        else:
+            val = OStr(PFIELD(t.fid, z3.IntVal(field)))
+        return ModV("match", {"groups": FuncV(lambda e2, s2, a2, k2, n2, _v=val: Tup((_v,)), "groups")})
+    return ModV(f"peer{field}", {"search": FuncV(search, "search")})
+
+
+def _peer_rows():
+    def finditer(ex, st, args, kw, node):
+        from pyvc.core import SeqV
+        t = args[0]
+        if not isinstance(t, _PeerText):
+            raise Undecided("the PEER sample pattern is applied to something other than the text of a file")
+        st.pc.append(PNROWS(t.fid) >= 0)
+        return SeqV(PNROWS(t.fid), lambda ex_, st_, i, _f=t.fid: ModV("row", {"groups": FuncV(lambda e2, s2, a2, k2, n2, _i=i: Tup((_FloatStr(PROW(_f, _i)),)), "groups")}),
+                    owner="fresh", name="rows")
+    return ModV("peer_rows", {"finditer": FuncV(finditer, "finditer")})
+
+
+def _m_np_array_peer(ex, st, args, kw, node):
+    """np.array(list of numeric key strings, dtype=int): the integers they spell (concrete keys)"""
+    v = args[0]
+    if isinstance(v, LRef := type(st.env.get("fnames"))) and all(type(x) is StrV for x in st.heap[v.sid].items):
+        items = st.heap[v.sid].items
+        try:
+            vals = [int(x.s) for x in items]
+        except ValueError:
+            raise PyRaise("ValueError", "a direction key that is not a number is converted to int")
+        arr = z3.K(I, z3.IntVal(0))
+        for j, val in enumerate(vals):
+            arr = z3.Store(arr, j, z3.IntVal(val))
+        return ex.alloc_arr(st, (z3.IntVal(len(vals)),), arr, "int", "fresh", tag="keys")
+    return npm.NP.attrs["array"].fn(ex, st, args, kw, node)
+
+
+def _m_argmin_concrete(ex, st, args, kw, node):
+    d = ex.arr(st, args[0])
+    n = z3.simplify(d.shape[0])
+    if not z3.is_int_value(n):
+        raise Undecided("argmin of an array of symbolic length")
+    vals = [z3.simplify(ex.sel1(d, z3.IntVal(j))) for j in range(n.as_long())]
+    if not all(z3.is_int_value(x) or z3.is_rational_value(x) for x in vals):
+        raise Undecided("argmin of values that are not concrete")
+    nums = [x.as_long() if z3.is_int_value(x) else x.as_fraction() for x in vals]
+    return z3.IntVal(nums.index(min(nums)))
+
+
+def _m_ts_peer(ex, st, args, kw, node):
+    d = ex.arr(st, args[0])
+    return ex.alloc_obj(st, "TimeSeries", {"amplitude": ex.alloc_arr(st, d.shape, d.data, "real", "fresh", tag="samples"), "dt_in_seconds": kw["dt_in_seconds"]}, "fresh")
+
+
+def _peer_inputs(deg_given):
+    def mk(ex, st):
+        st.env["fnames"] = ex.alloc_list(st, [StrV("<a>"), StrV("<b>"), StrV("<c>")])
+        st.env["obspy_read_kwargs"] = NONE
+        st.env["degrees_from_north"] = DEG_IN if deg_given else NONE
+        return []
+    return mk
+
+
+def _peer_expect(keys):
+    """the documented arrangement for three direction keys, written independently of the code: (ns file, ew file, vt file, orientation) or None when refused"""
+    up = [k for k in keys if k in ("UP", "VER")]
+    if up:
+        vt = keys.index("UP") if "UP" in keys else keys.index("VER")
+        hz = [j for j in range(3) if j != vt]
+        if not all(keys[j].isdigit() for j in hz):
+            return None
+        az = {j: int(keys[j]) for j in hz}
+        rel = {j: (a - 360 if a > 180 else a) for j, a in az.items()}
+        ns = min(hz, key=lambda j: (abs(rel[j]), hz.index(j)))
+        ew = [j for j in hz if j != ns][0]
+        return ns, ew, vt, az[ns] % 360
+    z = [j for j in range(3) if keys[j][-1].lower() == "z"]
+    if not z:
+        return None
+    vt = z[0]
+    hz = [j for j in range(3) if j != vt]
+    n_ = [j for j in hz if keys[j][-1] == "N"]
+    e_ = [j for j in hz if keys[j][-1] == "E"]
+    if len(n_) != 1 or len(e_) != 1:
+        return None
+    return n_[0], e_[0], vt, 0
+
+
+_PEER_CASES = [("UP", "000", "090"), ("090", "UP", "360"), ("VER", "270", "180"), ("45", "135", "UP"), ("350", "80", "UP"), ("HNZ", "HNN", "HNE"), ("HNE", "HNZ", "HNN"),
+               ("BHN", "BHE", "BHZ"), ("HNX", "HNN", "HNE"), ("HNZ", "HN1", "HNE")]
+_PG = {"PF": lambda f, k: PARSE_FLOAT(PROW(f, k)), "NPTS": lambda f: PARSE_INT(PFIELD(f, 1)), "DT": lambda f: PARSE_FLOAT(PFIELD(f, 2)), "FOUND": PNROWS,
+       "CUR": FuncV(lambda ex, st, a, k, n_: st.env["text"].fid, "CUR"), "SHORTEST": None}
+for _keys in _PEER_CASES:
+    _exp = _peer_expect(list(_keys))
+    for _dg in (False, True):
+        _env = dict(_RD_BASE, open=FuncV(_m_open_peer, "open"), peer_direction_exec=_peer_pattern(0, _keys), peer_npts_exec=_peer_pattern(1), peer_dt_exec=_peer_pattern(2),
+                    peer_sample_exec=_peer_rows(), TimeSeries=FuncV(_m_ts_peer, "TimeSeries"),
+                    np=ModV("np", dict(npm.NP.attrs, array=FuncV(_m_np_array_peer, "np.array"), argmin=FuncV(_m_argmin_concrete, "np.argmin"))))
+        _req = ["NPTS(11) >= 0 and NPTS(12) >= 0 and NPTS(13) >= 0", "FOUND(11) <= NPTS(11) and FOUND(12) <= NPTS(12) and FOUND(13) <= NPTS(13)"]
+        _bad_count = "NPTS(11) != FOUND(11) or NPTS(12) != FOUND(12) or NPTS(13) != FOUND(13)"
+        _bad_dt = "DT(12) != DT(11) or DT(13) != DT(11)"
+        _short = "min(FOUND(11), min(FOUND(12), FOUND(13)))"
+        if _exp is None:
+            _c = Contract(qual="hvsrpy.data_wrangler._read_peer", params=["fnames", "obspy_read_kwargs", "degrees_from_north"], ghost=_PG, make_inputs=_peer_inputs(_dg), requires=_req,
+                          raises={"ValueError": "True"}, ensures=[], loops={1: ["idx == _k1", "forall(i, 0, _k1, amplitude[i] == PF(CUR(), i))"]}, stable_shapes=("amplitude",), modifies=[],
+                          notes="direction keys that name no vertical, or not one north and one east horizontal, are refused")
+        else:
+            _ns, _ew, _vt, _rot = _exp
+            _comp = lambda comp, f: (f"len(result.{comp}.amplitude) == {_short} and forall(i, 0, {_short}, result.{comp}.amplitude[i] == PF(1{f + 1}, i)) and "
+                                     f"result.{comp}.dt_in_seconds == DT(1{f + 1})")
+            _c = Contract(qual="hvsrpy.data_wrangler._read_peer", params=["fnames", "obspy_read_kwargs", "degrees_from_north"], ghost=_PG, make_inputs=_peer_inputs(_dg), requires=_req,
+                          raises={"ValueError": f"{_bad_count} or {_bad_dt}"},
+                          ensures=[_comp("ns", _ns), _comp("ew", _ew), _comp("vt", _vt), "result.degrees_from_north == " + ("degrees_from_north" if _dg else str(_rot))],
+                          loops={1: ["idx == _k1", "forall(i, 0, _k1, amplitude[i] == PF(CUR(), i))"]}, stable_shapes=("amplitude",), modifies=[],
+                          notes="PEER: the vertical is the UP / VER (or ..Z) file, north the horizontal closest to north modulo 360 (or ..N), east the other; the samples of each "
+                                "file in file order, cut to the shortest component; the files' common DT; orientation = the north component's azimuth unless one is given")
+        TASKS.append(FunctionTask(_c, module_env=_env, label=f"hvsrpy.data_wrangler._read_peer[keys={','.join(_keys)};degrees_from_north={'given' if _dg else 'None'}]",
+                                  clauses=["PEER: direction keys -> components, samples in file order, count and time-step checks, orientation from the north azimuth"]))
+
 META = dict(
     level="other",
     explanation="proved: _check_npts raises iff the counts differ; _arrange_traces for three traces and all 64 combinations of channel-code endings "
